@@ -165,8 +165,15 @@ fn as_construct(ctx: &mut Ctx, rng: &mut Rng, seq: &Seq) -> Option<AsCase> {
         }
         2 => {
             let mut b = AsBlocksBuilder::new();
-            for (lo, hi) in &blocks {
-                b.push(as_block(*lo, *hi, rng));
+            if rng.bool() {
+                let items: Vec<AsBlock> = blocks.iter().map(|(lo, hi)| as_block(*lo, *hi, rng)).collect();
+                let cut = items.len() / 2;
+                b.extend(items[..cut].iter().copied());
+                b.extend(items[cut..].iter().copied());
+            } else {
+                for (lo, hi) in &blocks {
+                    b.push(as_block(*lo, *hi, rng));
+                }
             }
             let s = ctx.no_panic("as:builder", || detail("builder"), || b.finalize())?;
             ctx.sig(&format!("as builder {}", seq.shape));
